@@ -200,6 +200,20 @@ META = {
         assumptions=["the process stays alive; the database failures are transient (finitely many)"],
         timeout=2400,
     ),
+    "C17": dict(
+        rule="(a) branch identifiers for generated xids (ip:port:number, with dashes, random text) and branch ids (small, "
+             "random 63-bit, 2^63-1, random 64-bit): text, and decoding of the encoded parts; (b) one UPDATE through the "
+             "XA proxy inside a global transaction (autocommit; 20% inside an explicit transaction) for every fault "
+             "position (registration refused, XA START, the statement, XA END, XA PREPARE failing, none) and both "
+             "phase-two decisions, 30% of the fault-free runs with the kept connection forgotten before phase two; "
+             "observed: the XA commands and the registration in order, the error returned, the branch's final state; "
+             "oracle: one identifier (xid-branch) on every command, registration before XA START, a legal XA sequence, "
+             "an error and a rolled-back branch after any failure, the decision applied after success",
+        trusted=["memdb's XA state machine (MySQL semantics)"],
+        assumptions=["one pooled connection (every branch reuses it)"],
+        compare=lambda cid, impl, model, tags: False,
+        timeout=2400,
+    ),
     "C02": dict(
         rule="one AT local transaction (autocommit statement, or explicit BEGIN/1-2 statements/COMMIT; UPDATE, DELETE or "
              "INSERT that certainly changes a row) inside a global transaction, run once fault-free and then once per "
